@@ -44,6 +44,9 @@ type Sched struct {
 	roles  map[int]*role
 	Gates  map[string]bool // points that park; others pass through
 	OnPark func(role int, point string)
+	// OnPoint is called for EVERY hook point of the machine, on whatever
+	// goroutine passes it (record-only observers)
+	OnPoint func(goid int64, point string)
 	// machine filter: only hooks of this machine are considered (nil = any)
 	Mach *am.Machine
 	// StepTimeout bounds one step
@@ -63,6 +66,9 @@ func New(gates ...string) *Sched {
 func (s *Sched) Hook(m *am.Machine, point string) {
 	if s.Mach != nil && m != s.Mach {
 		return
+	}
+	if s.OnPoint != nil {
+		s.OnPoint(goid(), point)
 	}
 	if !s.Gates[point] {
 		return
